@@ -55,6 +55,7 @@ type RetryOpts struct {
 	HookEvents    bool   `json:"hookEvents,omitempty"`
 	SampleAfterMs int    `json:"sampleAfterMs,omitempty"`
 	DisconnectAt  string `json:"disconnectAt,omitempty"`
+	Hammer        bool   `json:"hammer,omitempty"`        // background goroutines keep calling Ping, Stats, Client, Handle (race-detector runs)
 	NoReestablish bool   `json:"noReestablish,omitempty"` // the scenario ends without a healthy connection on purpose
 }
 
@@ -180,6 +181,47 @@ func runRetry(sc *RetryScenario) *RetryResult {
 		return false
 	}
 
+	hammerStop := make(chan struct{})
+	var hammerWG sync.WaitGroup
+	if sc.Opts.Hammer {
+		for k := 0; k < 3; k++ {
+			k := k
+			hammerWG.Add(1)
+			go func() {
+				defer hammerWG.Done()
+				for {
+					select {
+					case <-hammerStop:
+						return
+					default:
+					}
+					switch k {
+					case 0:
+						func() {
+							defer func() { recover() }() // Ping before the first SetClient dereferences a nil client
+							pctx, pcancel := context.WithTimeout(ctx, 3*time.Millisecond)
+							cli.Ping(pctx)
+							pcancel()
+						}()
+					case 1:
+						_ = cli.Stats()
+						if bc := cli.Client(); bc != nil {
+							_ = bc.Err()
+							_ = bc.Done()
+							_ = bc.Stats()
+						}
+					case 2:
+						cli.Handle(mqtt.HandlerFunc(func(*mqtt.Message) {}))
+					}
+					time.Sleep(50 * time.Microsecond)
+				}
+			}()
+		}
+	}
+	defer func() {
+		close(hammerStop)
+		hammerWG.Wait()
+	}()
 	connCtx, connCancel := context.WithCancel(ctx)
 	defer connCancel()
 	connDone := make(chan struct{})
